@@ -187,12 +187,12 @@ CHECKS = {
     note="Trusted: Coq kernel + vm_compute; harness classification of errors and token-map reader. Functions, iterations, destructuring and declarations are tested, not modelled."),
  "C17": dict(
     category="proof",
-    text="PARTIAL proof. to_lp_format is modelled at token level (lp_terms, lp_num, lp_bound, sections, generated row names) and an independently written reader of the CPLEX-LP subset lives in Coq. "
-         "Proved (axiom-free): the reader inverts the writer on every linear expression / row body (signs, omitted unit coefficients and zero terms, all-zero rows, relation); whole-file round trip shown on an instance, "
-         "the general whole-file theorem is the stated target. Tie on every run: the real LP text is tokenised and must equal the model writer's tokens, and the reader run on the REAL text must return the model's denotation "
+    text="to_lp_format is modelled at token level (lp_terms, lp_num, lp_bound, sections, generated row names) and an independently written reader of the CPLEX-LP subset lives in Coq. "
+         "Proved (axiom-free) for every linear model with admissible names and non-NaN bounds (boolean premise lp_okb, evaluated on every tied model): the reader applied to the writer's whole file succeeds and returns the model's "
+         "denotation - sense, objective terms and constant, every row with its name, relation and right-hand side (signs, omitted unit coefficients and zero terms, all-zero rows), Bounds incl. free and infinite, Binary, General (C17_roundtrip). Tie on every run: the real LP text is tokenised and must equal the model writer's tokens, and the reader run on the REAL text must return the model's denotation "
          "(sense, objective terms and constant, rows with names/relation/rhs, bounds incl. free and infinite, Binary, General); generated row names must be unique. Genuine defect F11 repaired.",
     design_ref="DESIGN.md section 4 / C17",
-    technique="Coq model of writer + independent reader with round-trip lemmas; per-run token correspondence and reader-on-real-text check",
+    technique="Coq model of writer + independent reader with a whole-file round-trip theorem; per-run token correspondence and reader-on-real-text check",
     note="Trusted: Coq kernel + vm_compute; Python tokeniser (whitespace split, trailing colon split, decimal text -> f64 -> exact rational)."),
  "C10": dict(
     category="proof",
